@@ -97,6 +97,9 @@ def corpus():
     # F15 witness
     cs.append(_with_probes([A('/a', 1, name='n1'), A('/a', 2, ('POST',), name='n2'), dict(op='remove_name', name='n1'),
                             A('/a', 3, name='n3')], full=True))
+    # a registration rejected by the method table (second verb taken) writes nothing, not even its first verb
+    cs.append(_with_probes([A('/a', 1), A('/a', 2, ('PUT', 'GET')), A('/a', 3, ('POST', 'PUT')),
+                            dict(op='route_method', rule='/a', methods=['DELETE', 'GET'], h=4)], full=True))
     # rejected add for a name conflict has already inserted the route
     cs.append(_with_probes([A('/a', 1, name='n1'), A('/ab', 2, name='n1'), A('/ab', 3), dict(op='remove', rule='/a')],
                            full=True))
@@ -140,7 +143,7 @@ def _gen_ops(rng, n, admissible=True):
                 rule = prev[-1]['rule']          # same route again: another method / another NAME (aliases)
             if rule in ALT and rng.random() < 0.3:
                 rule = ALT[rule]
-            ms = rng.choice([['GET'], ['GET'], ['POST'], ['GET', 'POST'], ['ANY'], ['get']])
+            ms = rng.choice([['GET'], ['GET'], ['POST'], ['GET', 'POST'], ['ANY'], ['get'], ['PUT', 'GET'], ['DELETE', 'POST']])
             ops.append(L.vary_add(rng, dict(op='add', rule=rule, methods=ms, h=rng.randrange(1, 9),
                                             name=rng.choice([None, None] + NAMES), overwrite=rng.random() < 0.25)))
         elif r < 0.55:
@@ -367,7 +370,14 @@ def _oracle(case, obs):
             P = router.to_pattern(c['rule'])[:-1]
             if any(h.startswith(P) and h != P for h in router.hooks):
                 return None            # inadmissible from here on: outside the property
+        before = a.run(dict(op='listing')) if c['op'] in ('add', 'route_method', 'add_hook') else None
         res = a.run(c)
+        if before is not None and res in (1, 2, 3, 4, 5, 8):
+            # refused by the tree (filter conflict ...) or by the method table: the check runs before any write
+            after = a.run(dict(op='listing'))
+            if L_canon(after) != L_canon(before):
+                return 'after the REJECTED %s (error %s) the indexes changed: %s -> %s' % (
+                    _show(c), res, _short(_listing_diff(before, after)), '')
         if c['op'] == 'add_hook' and res == 0:
             hook_rule.setdefault(router.to_pattern(c['rule']), c['rule'])
         elif c['op'] == 'remove_hook' and res == 0:
@@ -391,6 +401,14 @@ def _oracle(case, obs):
                     return 'after %s: %s fired hooks %s, expected %s' % (
                         _show(c), _show(p), got, None if exp is None else [(s, a.hid_of(fn)) for s, fn in exp])
     return None
+
+
+def _listing_diff(b, a):
+    out = []
+    for k in ('routes', 'named', 'hooks'):
+        if L_canon(b[k]) != L_canon(a[k]):
+            out.append((k, [x for x in a[k] if x not in b[k]], [x for x in b[k] if x not in a[k]]))
+    return out
 
 
 def L_canon(x):
